@@ -4,6 +4,12 @@ import json
 props = [json.loads(l) for l in open('/verif/properties.jsonl')]
 ASSUME = "Trusted base: the simulator (simrt scheduler, simetcd/simnet/simdisk/simtikv models), the go/ast rewrite (R1-R5) of a scratch copy of /repo, the deterministic-runtime overlay, and the oracle code. etcd, gRPC, TiKV and the OS clock are models; interleavings are explored at seams only; sampling, not proof."
 claimed = {
+ "C14": dict(level="fault_enumeration", engine="e2", design="7/C14",
+   text="A bootstrapped real PD leader with 3-5 stores holding region peers. Sequential mode: groups of 12 runs share one sequence of PutStore / StoreHeartbeat (real gRPC handlers) and RemoveStore / UpStore / SetStoreWeight / UpdateStoreLabels / RemoveTombStoneRecords / checkStores (real RaftCluster methods) interleaved with region placements reported by the TiKV model; run k makes the k-th storage write of store data fail: a failed change leaves the served digest unchanged, after a successful change the stored record equals the served one, tombstone heartbeats and re-registrations are refused. Concurrent mode: the real checkStores loop and a heartbeat stream run concurrently. Monitor after every scheduler step: only Up->Offline, Offline->Up unless destroyed, Offline->Tombstone; a store holds no region peer at the step it turns Tombstone; no two live stores share an address.",
+   technique="deterministic simulation with an enumerated storage failure at each store write and a step-wise state-machine monitor"),
+ "C19": dict(level="exploration", engine="e2", design="7/C19",
+   text="A bootstrapped real PD leader in (or switched into) dr-auto-sync mode; the real ModeManager.Run loop ticks under the fake clock for 8-25 simulated minutes (scan batch lowered to 2-5); stores heartbeat while up, regions report integrity/simple-majority with current or stale state ids, completely or with gaps, in any order, while splitting and merging; a nemesis takes datacenters or single stores down/up, switches majority <-> dr-auto-sync, arms a failure of the next replication-status write and fails file replication. Monitor after every scheduler step on GetReplicationStatus(): fresh state id already in storage when served; ->async only with one dc at/over its replica count, a possible majority and the timeout passed; async->sync_recover only with both dcs below; sync_recover->sync only if regions seen with integrity under the current id cover the whole key space. Claimed as exploration (the enumerated single-failure form of the design was replaced by armed failures of the next status write at random transitions).",
+   technique="deterministic simulation under a fake clock with a step-wise transition-guard monitor"),
  "C06": dict(level="exploration", engine="e2", design="7/C06",
    text="A bootstrapped real PD leader; a TiKV model produces arbitrary split / merge / conf-change / leader-change histories; fresh and re-delivered (delayed, duplicated, reordered) heartbeats are handled by the real RaftCluster.HandleRegionHeartbeat one at a time or from 2-4 concurrent streams interleaved at lock / storage-call granularity. Monitors after every scheduler step (read through the locked API, deferred while a parked task holds the lock): served version / conf_ver / term of a region id never decrease while it stays served; no two served regions overlap. Sequential mode: a stale heartbeat is refused and leaves the cache unchanged, a fresh one is accepted, displaced regions are gone from cache and (after flush) from storage.",
    technique="deterministic simulation with step-wise cache invariants and a sequential refinement oracle"),
